@@ -18,7 +18,7 @@ ID = "C43"
 PROP_FILE = "Props/C43.v"
 THEOREMS = ["C43_refines_spec", "C43_reopen_last_written", "C43_untouched_key_keeps_value"]
 COQ_IMPORTS = "From BV Require Import Pure.PDict.\nFrom Coq Require Import NArith."
-PARALLEL = True
+PARALLEL = False          # set per tier in cases(): a process pool only pays off for the thorough tier
 MODELLED = ("PersistentDict (__setitem__/__delitem__/popitem/flush/reload/finalizer and the MutableMapping mixins pop/"
             "clear/update/setdefault) is modelled over two insertion-ordered association lists (the cache dict and "
             "zict.File's filenames dict, whose __setitem__ discards and re-adds the key); keys and values are numbers; "
@@ -76,6 +76,8 @@ def _alphabet():
 
 
 def cases(rng, tier):
+    global PARALLEL
+    PARALLEL = tier == "thorough"
     out = []
     alpha = _alphabet()
     full = 2 if tier == "quick" else 3
@@ -143,7 +145,8 @@ def impl(case):
     def kid(k):
         return keys.index(k) if k in keys else UNKNOWN
 
-    tmp = tempfile.mkdtemp(prefix="verif_c43_", dir="/tmp")
+    top = tempfile.mkdtemp(prefix="verif_c43_", dir="/tmp")
+    tmp = os.path.join(top, "store")        # does not exist yet: the first instance creates it
     d = None
     try:
         d = PersistentDict(tmp)
@@ -222,7 +225,7 @@ def impl(case):
         if d is not None:
             d._finalizer.detach()
         d = None
-        shutil.rmtree(tmp, ignore_errors=True)
+        shutil.rmtree(top, ignore_errors=True)
 
 
 # ------------------------------------------------------------------------------ Coq side
